@@ -70,7 +70,7 @@ class Mod(tokcursor.CursorMod):
             cnt = d["n"][1]
             if c == "alloc::vec::Vec::<T, A>::push" and args[0][0] == "ref":
                 item = I.deref_val(st, args[1])
-                s2 = I.write(st, args[0][1], vec("pos", item))
+                s2 = I.write(st, args[0][1], vec(1 if cnt == 0 else "big", item))
                 if item[0] == "struct" and item[1] == FIELD:
                     s2 = s2.setmon("need_field", False).setmon("fields_in_para", 1)
                     nm = dict(item[2]).get("name")
@@ -91,9 +91,26 @@ class Mod(tokcursor.CursorMod):
             if c in ("alloc::vec::Vec::<T, A>::is_empty", "core::slice::<impl [T]>::is_empty"):
                 return [(OK, ("bool", cnt == 0), st)]
             if c in ("alloc::vec::Vec::<T, A>::len", "core::slice::<impl [T]>::len"):
-                return [(OK, ("int", 0) if cnt == 0 else ("int", "pos"), st)]
+                return [(OK, ("int", cnt), st)]
             if c == "<alloc::vec::Vec<T, A> as core::ops::deref::DerefMut>::deref_mut" or c == "<alloc::vec::Vec<T, A> as core::ops::deref::Deref>::deref":
                 return [(OK, args[0], st)]
+            if c.endswith("IntoIterator>::into_iter") or c == "core::iter::traits::collect::IntoIterator::into_iter":
+                if cnt == 0:
+                    return [(OK, ("abs", "siter", (), 0), st)]
+                if cnt == 1:
+                    return [(OK, ("abs", "siter", (d["last"],), 0), st)]
+                return [(OK, unk("vec-iter"), st)]
+        if a0 is not None and a0[0] == "abs" and a0[1] == "siter" and (c.endswith("Iterator>::next") or c == "core::iter::traits::iterator::Iterator::next"):
+            items, i = a0[2], a0[3]
+            if i < len(items):
+                s2 = I.write(st, args[0][1], ("abs", "siter", items, i + 1)) if args[0][0] == "ref" else st
+                return [(OK, some(items[i]), s2)]
+            return [(OK, none(), st)]
+        if c == "core::str::<impl str>::parse" and n.get("ty", "").startswith("core::result::Result<deb822_lossless::lossy::Deb822"):
+            return I.inline(self.facts.fns[ENTRY_KEY], [I.deref_val(st, args[0])], st)
+        if False:
+            if True:
+                pass
         if a0 is not None and a0[0] == "abs" and a0[1] == "lstr":
             state = a0[2]
             tgt = args[0]
